@@ -337,7 +337,37 @@ def project(name, cfg, locales_dir, files):
             write(os.path.join(root, locales_dir, f"{rel}.{ext}"), text)
 
 
+# ---------------------------------------------------------------- many locales / many branches / inherits cycle
+MANY_LOCALES = ["en", "fr", "de", "es", "it", "pt", "nl", "sv", "da", "fi", "pl", "cs", "hu", "ro", "tr", "el", "ja", "ko"]
+MANY_CFG = 'default = "en"\nlocales = [' + ", ".join(f'"{l}"' for l in MANY_LOCALES) + ']\n'
+
+def many_file(l):
+    d = {
+        "title": f"Title ({l})",
+        "welcome": f"Welcome {{{{ name }}}} ({l})",
+        "steps": [[f"step {i} ({l})", i] for i in range(20)] + [[f"many steps {{{{ count }}}} ({l})"]],
+        "level": ["u8"] + [[f"level {i} ({l})", f"{i * 10}..{i * 10 + 10}"] for i in range(18)] + [[f"top ({l})", "180.."]],
+    }
+    if l in ("ja", "ko"):
+        del d["title"]  # defaulted
+    return d
+
+CYC_CFG = '''default = "en"
+locales = ["en", "fr", "es", "de", "it"]
+inherits = { fr = "es", es = "fr", de = "fr", it = "de" }
+'''
+CYC = {
+    "en": {"a": "a (en)", "b": "b {{ x }} (en)", "c": {"d": "c.d (en)", "e": [["zero", 0], ["{{ count }} (en)"]]}, "f": "$t(a) via f (en)", "g": "g (en)"},
+    "fr": {"a": "a (fr)", "c": {"d": "c.d (fr)"}, "g": None},
+    "es": {"a": "a (es)", "c": {"e": [["cero", 0], ["{{ count }} (es)"]]}},
+    "de": {"b": "b {{ x }} (de)", "g": "g (de)"},
+    "it": {"a": None, "f": "$t(a) via f (it)"},
+}
+
+
 def main():
+    project("manyloc", MANY_CFG, "locales", {l: many_file(l) for l in MANY_LOCALES})
+    project("cyclic", CYC_CFG, "locales", CYC)
     project("rich", RICH_CFG, "locales", {"en": RICH_EN, "fr": RICH_FR, "fr-CA": RICH_FRCA, "ru": RICH_RU, "ar": RICH_AR})
     project("unicode", UNI_CFG, "i18n/strings", {"en": UNI_EN, "fr": UNI_FR, "ja": UNI_JA})
     files = {}
